@@ -218,7 +218,7 @@ class Apply(Suite):
     go_cmd = "c06"
     coq_imports = "From GoGit Require Import Model.Delta Spec.GitDelta."
     quick_n = 200
-    thorough_n = 2400
+    thorough_n = 1200
     coq_chunk = 40
 
     def gen(self, rng, n, tier):
@@ -439,7 +439,7 @@ class Diff(Suite):
     go_cmd = "c06"
     coq_imports = "From GoGit Require Import Model.Delta."
     quick_n = 80
-    thorough_n = 900
+    thorough_n = 400
     coq_chunk = 30
 
     def __init__(self):
